@@ -11,7 +11,11 @@ inline ccl::EntityUID ascending(const ccl::SetOfEntities& taken) {
   ccl::EntityUID m = 0; for (auto u : taken) if (u > m) m = u; return m + 1;
 }
 inline ccl::EntityUID descending(const ccl::SetOfEntities& taken) {
-  if (taken.empty()) return 1000000; ccl::EntityUID m = *taken.begin(); for (auto u : taken) if (u < m) m = u; return m - 1;
+  if (taken.empty()) return 1000000;
+  ccl::EntityUID m = *taken.begin(); for (auto u : taken) if (u < m) m = u;
+  if (m >= 2) return m - 1;                                  // below everything live
+  ccl::EntityUID c = 1000000; while (taken.count(c) != 0) --c;   // min is 0/1: largest free value at or below the high start
+  return c;
 }
 inline void install(int policy) { ccl::verif::uidSource = policy == 0 ? &ascending : &descending; }
 }  // namespace uidpolicy
